@@ -203,6 +203,61 @@ def job_mem(tier, seed):
     return ck.export()
 
 
+def job_ahbm(tier, seed):
+    """AHBM read path from an arbitrary channel configuration (unit size, burst size, direction: any 16-bit register values,
+    including the reserved encodings): Read32 / Read16 never hand back a word of the burst queue that was never written (the
+    queue must not be consumed empty) and cause no abort / out-of-bounds index"""
+    from checks import c13, c17
+    E = c13.Env()
+    ck = core.Check('C18', 'model_checking', tier, seed)
+    L = E.al
+    for unit in (16, 32):
+        ex, st = kit.new_exec(E.mod, unwind=200)
+        ah = ex.new_region(st, L['_size'][0], 'ahbm')
+        ex.call(st, '@ahbm_ctor', [Ptr(ah, 0)])
+        cfg = {}
+        for f in ('unit_size', 'burst_size', 'direction'):
+            off, sz, cnt, stride = L['ch.' + f]
+            cfg[f] = z3.BitVec('ahbm.ch1.' + f, 8 * sz)
+            ex.store(st, Ptr(ah, off + 1 * stride), sz, cfg[f])
+        for f in ('read_external8', 'read_external16', 'read_external32'):
+            ex.store(st, Ptr(ah, L[f][0] + 16), 8, Ptr('F', 1))
+
+        def ext(bits):
+            def f(e, st_, a):
+                k = len([1 for ev in st_.log if ev[0] == 'XR'])
+                v = z3.BitVec('mem%d_%d' % (bits, k), bits)
+                st_.log.append(('XR', list(st_.pc), bits, a[1], v))
+                return st_, v
+            return f
+        for nme in E.mod.funcs:
+            for pat, bits in (('functionIFhjEEclEj', 8), ('functionIFtjEEclEj', 16), ('functionIFjjEEclEj', 32)):
+                if nme.endswith(pat):
+                    ex.intercepts[nme] = ext(bits)
+        addr = z3.BitVec('addr', 32)
+        ex.exits, ex.oblig = [], []
+        try:
+            r = ex.call(st, '@ahbm_read%d' % unit, [Ptr(ah, 0), 1, addr])
+        except (Abort, UnwindBound) as x:
+            ck.inconclusive.append('Ahbm.Read%d: %s' % (unit, str(x)[:120]))
+            continue
+        ck.ninstr += ex.ninstr
+        ck.nstates += 1
+        vars_ = dict(cfg, addr=addr)
+        if r is None or r is DEAD:
+            ck.prove('Ahbm.Read%d.defined' % unit, [], z3.BoolVal(False), vars=vars_, witness=False)
+            continue
+        val = bv(r[1], unit)
+        gv = c17.garbage_vars(val)
+        goal = z3.And(z3.Not(kit.exit_cond(ex)), kit.obligations(ex))
+        if gv:
+            sub = [(v, z3.BitVec(n + "'", v.size())) for n, v in gv.items()]
+            goal = z3.And(goal, val == z3.substitute(val, *sub))
+        ck.prove('Ahbm.Read%d.defined' % unit, [], goal, vars=vars_, witness=False,
+                 sample='Ahbm::Read%d from any channel configuration (reserved burst / unit encodings included): the value comes from the external-memory callback, never from a queue slot that was not written; no abort, no index out of range' % unit)
+    return ck.export()
+
+
 def _dispatch(fn, args):
     return fn(*args)
 
@@ -231,7 +286,7 @@ def run(tier, seed):
         rows = sorted(set(keep + rest[:60] + chg))
         ck.notes.append('%d rows whose handler IR differs from the pinned reference tree are always included' % len(chg))
         ck.bounds.append('quick tier: %d of %d rows (all control-flow / stack / loop / move / status rows plus a seeded sample of the arithmetic rows); thorough: every row, plus every row again on the UBSan-instrumented IR' % (len(rows), n))
-    jobs = [(job_row, (i, False, tier, seed)) for i in rows] + [(job_run, (tier, seed)), (job_dma, (tier, seed)), (job_mem, (tier, seed))]
+    jobs = [(job_row, (i, False, tier, seed)) for i in rows] + [(job_run, (tier, seed)), (job_dma, (tier, seed)), (job_mem, (tier, seed)), (job_ahbm, (tier, seed))]
     if tier == 'thorough':
         env(True)
         jobs += [(job_row, (i, True, tier, seed)) for i in range(n)]
